@@ -418,9 +418,16 @@ fn flag_is(m: &MapTok, k: &str) -> Option<bool> {
 /// Derived error enum → `{"error": "<interface>.<Variant>"}` plus `parameters` exactly when the
 /// variant has fields, under their wire names; round trip.
 pub fn error_encode_roundtrip(nd: &mut Nd) {
-    let which = nd.below(6);
+    error_encode_roundtrip_v::<6, false>(nd)
+}
+
+/// The same with the variant (W < 6) and the presence of its optional field (OPT) fixed by the
+/// instance - the shape of the value is concrete, its field values symbolic (12.4); W = 6: both
+/// symbolic.
+pub fn error_encode_roundtrip_v<const W: usize, const OPT: bool>(nd: &mut Nd) {
+    let which = if W < 6 { W } else { nd.below(6) };
     let v = nd.u32();
-    let has_opt = nd.bool();
+    let has_opt = if W < 6 { OPT } else { nd.bool() };
     let e = match which {
         0 => ErrA::Unit,
         1 => ErrA::Other,
@@ -474,8 +481,12 @@ pub fn error_encode_roundtrip(nd: &mut Nd) {
     }
     let back: Result<ErrA<'_>, _> = from_tokens(&m);
     assert!(matches!(&back, Ok(b) if *b == e), "C05.error_roundtrip");
-    cover!(nd, which == 4 && has_opt, "borrowed + optional field variant");
-    cover!(nd, which == 5 && !has_opt, "all-optional variant with nothing set");
+    if W == 6 {
+        cover!(nd, which == 4 && has_opt, "borrowed + optional field variant");
+        cover!(nd, which == 5 && !has_opt, "all-optional variant with nothing set");
+    } else {
+        cover!(nd, v != 0, "round trip compared");
+    }
     core::mem::forget(back);
 }
 
